@@ -401,6 +401,8 @@ class Harness:
         if self.enqueued < len(self.case["tasks"]) and not self.case.get("clients"):
             if all(d in self.tid_of_idx for d in self.case["tasks"][self.enqueued]["deps"]):
                 c.append(("enqueue", self.enqueued))
+                if self.cancels_left > 0:
+                    c.append(("enqcancel", self.enqueued))
         if self.cancels_left > 0 and self.scheduler.tasks:
             c.append(("cancel", None))
         if timeout is not None:
@@ -415,7 +417,7 @@ class Harness:
         w = []
         bias = self.case.get("bias", {})
         for k, _ in cands:
-            w.append(bias.get(k, {"exit": 3, "die": 3, "enqueue": 4, "cancel": 1.5, "time": 1.5, "client": 4}[k]))
+            w.append(bias.get(k, {"exit": 3, "die": 3, "enqueue": 4, "cancel": 1.5, "time": 1.5, "client": 4, "enqcancel": 0.6}[k]))
         return self.rng.choices(cands, w)[0]
 
     def apply(self, ev):
@@ -437,6 +439,14 @@ class Harness:
             deps = [self.tid_of_idx[d] for d in t["deps"] if d in self.tid_of_idx]
             self.log("enqueue", idx=idx, deps=deps)
             self.loop.create_task(self._enqueue(idx, t, deps))
+        elif kind == "enqcancel":
+            idx = arg
+            t = self.case["tasks"][idx]
+            self.enqueued += 1
+            self.cancels_left -= 1
+            deps = [self.tid_of_idx[d] for d in t["deps"] if d in self.tid_of_idx]
+            self.log("enqueue", idx=idx, deps=deps, then_cancel=True)
+            self.loop.create_task(self._enqueue_then_cancel(idx, t, deps))
         elif kind == "cancel":
             tids = sorted(self.scheduler.tasks)
             tid = self.rng.choice(tids)
@@ -462,6 +472,18 @@ class Harness:
         if t.get("log_fail"):
             name = "nodir/n%d" % idx  # log path in a directory that does not exist
         await self.scheduler.enqueue_task(name=name, script="task:%d:" % idx, working_dir=self.workdir, time_limit=t.get("time_limit"), deps=deps)
+
+    async def _enqueue_then_cancel(self, idx, t, deps):
+        """cancel request processed before the new task's coroutine had its first step"""
+        name = "n%d" % idx
+        tid = await self.scheduler.enqueue_task(name=name, script="task:%d:" % idx, working_dir=self.workdir, time_limit=t.get("time_limit"), deps=deps)
+        st = self.scheduler.task_states.get(tid)
+        self.log("cancel", tid=tid, state_at_delivery=getattr(st, "name", None), immediate=True)
+        self.cancel_log.append((tid, getattr(st, "name", None), self.qindex))
+        if self.case.get("clients"):
+            await self.local.Scheduler.cancel_task(self.scheduler, tid)
+        else:
+            await self.scheduler.cancel_task(tid)
 
     def on_enqueued(self, tid, name, script):
         idx = None
